@@ -846,6 +846,8 @@ def mini_interp(fn_node, leaf, max_steps=200):
                 continue
             if isinstance(st, ast.Pass):
                 continue
+            if isinstance(st, ast.Expr) and isinstance(st.value, ast.Call) and (dotted(st.value.func) or '').split('.')[0] in ('log', 'txtorlog', 'warnings', 'logging', 'logger'):
+                continue        # tracing does not take part in the result
             if isinstance(st, ast.Return):
                 r = _Ret()
                 r.value = ev(st.value) if st.value is not None else 'NONE'
